@@ -10,7 +10,7 @@
      deep as the loop stack.
    At the end of a function X = [] and the loop stack is empty, so every jump is resolved. *)
 From Coq Require Import Strings.Byte Strings.String.
-From Coq Require Import List NArith ZArith Bool Arith Lia.
+From Coq Require Import List NArith ZArith Bool Arith Lia Permutation.
 From YV Require Import Show Utf8 Num Ast Bytecode ParseLoc FullCompile FullCompileProofs FullCompileWF.
 Import ListNotations.
 Local Open Scope nat_scope.
@@ -125,6 +125,42 @@ Qed.
 (* the jump invariant                                                   *)
 Fixpoint lof (fs : list fact) : list comp :=
   match fs with FLoopsOf k :: r => k :: lof r | _ :: r => lof r | [] => [] end.
+Fixpoint cof (fs : list fact) : list (nat * nat) :=
+  match fs with FCatch p t :: r => (p, t) :: cof r | _ :: r => cof r | [] => [] end.
+Definition sigf (f : fact) : bool := match f with FLoopsOf _ | FCatch _ _ => true | _ => false end.
+Definition sig (fs : list fact) : list fact := filter sigf fs.
+
+Lemma in_lof_iff k fs : In k (lof fs) <-> In (FLoopsOf k) fs.
+Proof.
+  induction fs as [|f r IH]; simpl. tauto.
+  destruct f; simpl; rewrite ?IH; split; intros H; auto; try (destruct H as [H|H]; [discriminate|auto]).
+  - destruct H as [->|H]; auto.
+  - destruct H as [H|H]; auto. inversion H; auto.
+Qed.
+Lemma in_cof_iff p t fs : In (p, t) (cof fs) <-> In (FCatch p t) fs.
+Proof.
+  induction fs as [|f r IH]; simpl. tauto.
+  destruct f; simpl; rewrite ?IH; split; intros H; auto; try (destruct H as [H|H]; [discriminate|auto]).
+  - destruct H as [H|H]; auto. inversion H; auto.
+  - destruct H as [H|H]; auto. inversion H; auto.
+Qed.
+Lemma sig_lof fs fs' : incl (sig fs') (sig fs) -> incl (lof fs') (lof fs).
+Proof.
+  intros Hi k Hk. apply in_lof_iff in Hk. apply in_lof_iff.
+  assert (In (FLoopsOf k) (sig fs')) by (apply filter_In; auto). apply Hi in H. apply filter_In in H. tauto.
+Qed.
+Lemma sig_cof fs fs' : incl (sig fs') (sig fs) -> incl (cof fs') (cof fs).
+Proof.
+  intros Hi [p t] Hk. apply in_cof_iff in Hk. apply in_cof_iff.
+  assert (In (FCatch p t) (sig fs')) by (apply filter_In; auto). apply Hi in H. apply filter_In in H. tauto.
+Qed.
+Lemma sig_incl fs fs' : incl fs fs' -> incl (sig fs) (sig fs').
+Proof. intros Hi f Hf. apply filter_In in Hf. apply filter_In. destruct Hf. auto. Qed.
+Lemma sig_holes ps fs : sig (map FHole ps ++ fs) = sig fs.
+Proof. induction ps; simpl; auto. Qed.
+
+Definition is_handler (i : ainstr) : Prop := fst i = OpPushExcHandler.
+
 Definition clean (fs : list fact) : bool :=
   forallb (fun f => match f with FDef _ | FLoopsOf _ => false | _ => true end) fs.
 
@@ -176,7 +212,17 @@ Record jinv (n : nat) (X : list nat) (fs : list fact) (c : comp) (g : list ainst
   j_len : length (k_breaks c) = length (k_loops c);
   j_depth : length (k_loops c) = n;
   j_lof : forall k, In k (lof fs) -> k_loops c = k_loops k;
-  j_jf : jf_ok g
+  j_jf : jf_ok g;
+  j_nodup : NoDup (concat (k_breaks c) ++ X);
+  j_xle : forall x, In x (concat (k_breaks c) ++ X) -> x <= length (flat g);
+  j_h1 : forall k a b c0 d, nth_error g k = Some (OpPushExcHandler, [a; b; c0; d]) ->
+      bnd g (pos g k + 5 + N.to_nat (u16 a b)) \/ In (pos g k + 1) X;
+  j_h2 : forall k a b c0 d, nth_error g k = Some (OpPushExcHandler, [a; b; c0; d]) ->
+      bnd g (pos g k + 5 + N.to_nat (u16 a b) + N.to_nat (u16 c0 d)) \/ In (pos g k + 3) X;
+  j_catch : forall p t, In (p, t) (cof fs) -> forall k a b c0 d,
+      nth_error g k = Some (OpPushExcHandler, [a; b; c0; d]) -> pos g k + 1 = p ->
+      pos g k + 5 + N.to_nat (u16 a b) = t;
+  j_cfresh : forall p t, In (p, t) (cof fs) -> ~ In p (concat (k_breaks c) ++ X) /\ p <= length (flat g)
 }.
 
 Definition TJ {A} (n : nat) (X : list nat) (fs : list fact) (m : C A)
@@ -203,10 +249,11 @@ Proof.
   destruct H as [->|H]. simpl; auto. destruct f; simpl; auto.
 Qed.
 
-Lemma jinv_weaken n X X' fs fs' c g : incl X X' -> incl (lof fs') (lof fs) -> jinv n X fs c g -> jinv n X' fs' c g.
+Lemma jinv_weaken n X X' fs fs' c g : X = X' -> incl (sig fs') (sig fs) -> jinv n X fs c g -> jinv n X' fs' c g.
 Proof.
-  intros HX Hl []. constructor; auto.
-  intros k o a b H1 H2. destruct (j_jumps0 k o a b H1 H2) as [?|[?|?]]; auto.
+  intros <- Hs []. pose proof (sig_lof _ _ Hs) as Hl. pose proof (sig_cof _ _ Hs) as Hc. constructor; auto.
+  - intros p t Hin. eapply j_catch0; eauto.
+  - intros p t Hin. eapply j_cfresh0; eauto.
 Qed.
 
 Lemma TJ_post {A} n X fs (m : C A) Q X1 n1 R :
@@ -215,7 +262,7 @@ Proof.
   intros Hm Hi s G a s' Hs Hf Hj H. destruct (Hm _ _ _ _ Hs Hf Hj H) as (G1 & Hs1 & Hle1 & Hq & Hj1).
   exists G1. split; auto. split; auto. split.
   - unfold holds in *. rewrite Forall_forall in *. intros f Hin. apply Hq. apply Hi. auto.
-  - eapply jinv_weaken; [apply incl_refl| |exact Hj1]. apply lof_incl. auto.
+  - eapply jinv_weaken; [reflexivity| |exact Hj1]. apply sig_incl. auto.
 Qed.
 
 Lemma TJ_ext {A} n X fs (m m' : C A) Q X1 n1 : TJ n X fs m Q X1 n1 -> (forall s, m' s = m s) -> TJ n X fs m' Q X1 n1.
@@ -327,11 +374,77 @@ Lemma nth_error_lt {A} (g : list A) k x : nth_error g k = Some x -> k < length g
 Proof. intros H. apply nth_error_Some. congruence. Qed.
 
 (* ------------------------------------------------------------------ *)
+(* appending instructions: the part of the invariant about pending positions and handlers *)
+Lemma nth_error_app_old {A} (g new : list A) k i :
+  nth_error (g ++ new) k = Some i -> (k < length g /\ nth_error g k = Some i) \/ In i new.
+Proof.
+  intros H. destruct (Nat.lt_ge_cases k (length g)).
+  - left. split; auto. rewrite nth_error_app1 in H; auto.
+  - right. rewrite nth_error_app2 in H by lia. eapply nth_error_In; eauto.
+Qed.
+
+Definition hcore (X : list nat) (fs : list fact) (c : comp) (g : list ainstr) : Prop :=
+  NoDup (concat (k_breaks c) ++ X) /\
+  (forall x, In x (concat (k_breaks c) ++ X) -> x <= length (flat g)) /\
+  (forall k a b c0 d, nth_error g k = Some (OpPushExcHandler, [a; b; c0; d]) ->
+      bnd g (pos g k + 5 + N.to_nat (u16 a b)) \/ In (pos g k + 1) X) /\
+  (forall k a b c0 d, nth_error g k = Some (OpPushExcHandler, [a; b; c0; d]) ->
+      bnd g (pos g k + 5 + N.to_nat (u16 a b) + N.to_nat (u16 c0 d)) \/ In (pos g k + 3) X) /\
+  (forall p t, In (p, t) (cof fs) -> forall k a b c0 d,
+      nth_error g k = Some (OpPushExcHandler, [a; b; c0; d]) -> pos g k + 1 = p ->
+      pos g k + 5 + N.to_nat (u16 a b) = t) /\
+  (forall p t, In (p, t) (cof fs) -> ~ In p (concat (k_breaks c) ++ X) /\ p <= length (flat g)).
+
+Lemma jinv_hcore n X fs c g : jinv n X fs c g -> hcore X fs c g.
+Proof. intros []. repeat split; auto; try (eapply j_cfresh0; eauto). Qed.
+
+Lemma hcore_app X fs c g new :
+  hcore X fs c g -> Forall (fun i => fst i <> OpPushExcHandler) new -> hcore X fs c (g ++ new).
+Proof.
+  intros (N1 & N2 & N3 & N4 & N5 & N6) Hn.
+  assert (Hold : forall k a b c0 d, nth_error (g ++ new) k = Some (OpPushExcHandler, [a; b; c0; d]) ->
+                   k < length g /\ nth_error g k = Some (OpPushExcHandler, [a; b; c0; d])).
+  { intros k a b c0 d H. apply nth_error_app_old in H. destruct H as [H|H]; auto.
+    rewrite Forall_forall in Hn. apply Hn in H. simpl in H. congruence. }
+  repeat split; auto.
+  - intros x Hx. apply N2 in Hx. rewrite flat_app, app_length. lia.
+  - intros k a b c0 d H. apply Hold in H. destruct H as [Hk H]. rewrite pos_app_le by lia.
+    destruct (N3 _ _ _ _ _ H); auto. left. apply bnd_app; auto.
+  - intros k a b c0 d H. apply Hold in H. destruct H as [Hk H]. rewrite pos_app_le by lia.
+    destruct (N4 _ _ _ _ _ H); auto. left. apply bnd_app; auto.
+  - intros p t Hin k a b c0 d H Hp. apply Hold in H. destruct H as [Hk H]. rewrite pos_app_le in * by lia. eapply N5; eauto.
+  - eapply N6; eauto.
+  - destruct (N6 _ _ H) as [_ Hle]. rewrite flat_app, app_length. lia.
+Qed.
+
+Ltac hc H := destruct H as (?N1 & ?N2 & ?N3 & ?N4 & ?N5 & ?N6).
+
+Lemma in_mid {A} (l1 : list A) p l2 x : In x (l1 ++ p :: l2) <-> x = p \/ In x (l1 ++ l2).
+Proof. rewrite !in_app_iff. simpl. intuition. Qed.
+
+Lemma hcore_consX X fs c g p :
+  hcore X fs c g -> (forall x, In x (concat (k_breaks c) ++ X) -> x < p) -> p <= length (flat g) ->
+  (forall q t, In (q, t) (cof fs) -> q < p) -> hcore (p :: X) fs c g.
+Proof.
+  intros (N1 & N2 & N3 & N4 & N5 & N6) Hf Hp Hq. repeat split; auto.
+  - eapply Permutation_NoDup. apply Permutation_middle. constructor; auto. intros Hin. apply Hf in Hin. lia.
+  - intros x Hx. apply in_mid in Hx. destruct Hx as [->|Hx]; auto.
+  - intros k a b c0 d H. destruct (N3 _ _ _ _ _ H); auto. right; right; auto.
+  - intros k a b c0 d H. destruct (N4 _ _ _ _ _ H); auto. right; right; auto.
+  - intros Hin. apply in_mid in Hin. destruct Hin as [->|Hin]. apply Hq in H. lia. eapply N6; eauto.
+  - eapply N6; eauto.
+Qed.
+
+(* ------------------------------------------------------------------ *)
 (* appending an instruction                                             *)
 Lemma jinv_push n X fs c g i :
-  jinv n X fs c g -> is_jump16 (fst i) = false -> fst i <> OpLoop -> i <> (OpJumpFinally, []) -> jinv n X fs c (g ++ [i]).
+  jinv n X fs c g -> is_jump16 (fst i) = false -> fst i <> OpLoop -> i <> (OpJumpFinally, []) ->
+  fst i <> OpPushExcHandler -> jinv n X fs c (g ++ [i]).
 Proof.
-  intros [] Hj Hl Hjf. constructor; auto using jf_ok_snoc.
+  intros J Hj Hl Hjf Hh.
+  assert (HC : hcore X fs c (g ++ [i])) by (apply hcore_app; [eapply jinv_hcore; eauto | repeat constructor; auto]).
+  hc HC.
+  destruct J. constructor; auto using jf_ok_snoc.
   - intros k o a b H1 H2. apply nth_error_snoc in H1. destruct H1 as [[Hk H1]|[Hk H1]].
     + rewrite pos_app_le by lia. destruct (j_jumps0 k o a b H1 H2) as [?|[?|?]]; auto. left. apply bnd_app; auto.
     + subst i. simpl in Hj. congruence.
@@ -344,7 +457,14 @@ Qed.
 Lemma jinv_push_jump n X fs c g o a b :
   jinv n X fs c g -> is_jump16 o = true -> jinv n ((length (flat g) + 1) :: X) fs c (g ++ [(o, [a; b])]).
 Proof.
-  intros [] Hj. constructor; auto.
+  intros J Hj.
+  assert (HC : hcore ((length (flat g) + 1) :: X) fs c (g ++ [(o, [a; b])])).
+  { pose proof (jinv_hcore _ _ _ _ _ J) as H0. apply hcore_consX.
+    - apply hcore_app; auto. repeat constructor. simpl. destruct o; discriminate.
+    - hc H0. intros x Hx. apply N2 in Hx. lia.
+    - rewrite flat_app, app_length. simpl. lia.
+    - hc H0. intros q t Hq. destruct (N6 _ _ Hq). lia. }
+  hc HC. destruct J. constructor; auto.
   4:{ apply jf_ok_snoc; auto. destruct o; discriminate. }
   - intros k o' a' b' H1 H2. apply nth_error_snoc in H1. destruct H1 as [[Hk H1]|[Hk H1]].
     + rewrite pos_app_le by lia. destruct (j_jumps0 k o' a' b' H1 H2) as [?|[?|?]]; auto.
@@ -360,7 +480,10 @@ Lemma jinv_push_loop n X fs c g a b ls :
   jinv n X fs c g -> bnd g ls -> N.to_nat (u16 a b) = length (flat g) + 3 - ls ->
   jinv n X fs c (g ++ [(OpLoop, [a; b])]).
 Proof.
-  intros [] Hb Hu. constructor; auto.
+  intros J Hb Hu.
+  assert (HC : hcore X fs c (g ++ [(OpLoop, [a; b])])).
+  { apply hcore_app. eapply jinv_hcore; eauto. repeat constructor. discriminate. }
+  hc HC. destruct J. constructor; auto.
   4:{ apply jf_ok_snoc; auto. discriminate. }
   - intros k o' a' b' H1 H2. apply nth_error_snoc in H1. destruct H1 as [[Hk H1]|[Hk H1]].
     + rewrite pos_app_le by lia. destruct (j_jumps0 k o' a' b' H1 H2) as [?|[?|?]]; auto. left. apply bnd_app; auto.
@@ -375,15 +498,87 @@ Qed.
 
 (* ------------------------------------------------------------------ *)
 (* patching                                                             *)
+Lemma pos_le_mono g k k' : k <= k' -> k' <= length g -> pos g k <= pos g k'.
+Proof.
+  intros H H'. destruct (Nat.eq_dec k k') as [->|Hne]; auto. pose proof (pos_mono g k' k). lia.
+Qed.
+Lemma pos_gap g k k0 x d :
+  nth_error g k = Some x -> 0 < d -> d < length (enc x) -> k0 <= length g -> pos g k0 <> pos g k + d.
+Proof.
+  intros Hn Hd Hd' Hk0. pose proof (nth_error_lt _ _ _ Hn) as Hk. pose proof (pos_S g k x Hn) as HS.
+  destruct (Nat.le_gt_cases k0 k).
+  - pose proof (pos_le_mono g k0 k). lia.
+  - pose proof (pos_le_mono g (S k) k0). lia.
+Qed.
+
+Lemma hcore_sp X fs c g g' :
+  hcore X fs c g -> Forall2 sp g g' ->
+  (forall k a b c0 d, nth_error g' k = Some (OpPushExcHandler, [a; b; c0; d]) ->
+                      nth_error g k = Some (OpPushExcHandler, [a; b; c0; d])) ->
+  hcore X fs c g'.
+Proof.
+  intros (N1 & N2 & N3 & N4 & N5 & N6) Hsp Hsame.
+  assert (Hl : length (flat g') = length (flat g)) by (symmetry; apply F2sp_len; auto).
+  repeat split; auto.
+  - intros x Hx. rewrite Hl. auto.
+  - intros k a b c0 d H. rewrite (F2sp_pos _ _ Hsp). destruct (N3 _ _ _ _ _ (Hsame _ _ _ _ _ H)); auto.
+    left. eapply bnd_sp; eauto.
+  - intros k a b c0 d H. rewrite (F2sp_pos _ _ Hsp). destruct (N4 _ _ _ _ _ (Hsame _ _ _ _ _ H)); auto.
+    left. eapply bnd_sp; eauto.
+  - intros p t Hin k a b c0 d H Hp. rewrite (F2sp_pos _ _ Hsp) in *. eapply N5; eauto.
+  - eapply N6; eauto.
+  - rewrite Hl. eapply N6; eauto.
+Qed.
+
+Lemma hcore_remX X X' fs c g p :
+  hcore X fs c g -> Permutation X (p :: X') ->
+  (forall k a b c0 d, nth_error g k = Some (OpPushExcHandler, [a; b; c0; d]) -> pos g k + 1 = p ->
+     bnd g (pos g k + 5 + N.to_nat (u16 a b))) ->
+  (forall k a b c0 d, nth_error g k = Some (OpPushExcHandler, [a; b; c0; d]) -> pos g k + 3 = p ->
+     bnd g (pos g k + 5 + N.to_nat (u16 a b) + N.to_nat (u16 c0 d))) ->
+  hcore X' fs c g.
+Proof.
+  intros (N1 & N2 & N3 & N4 & N5 & N6) HP H1 H2.
+  assert (HPP : Permutation (concat (k_breaks c) ++ X) (p :: concat (k_breaks c) ++ X')).
+  { eapply Permutation_trans. apply Permutation_app_head. exact HP. apply Permutation_sym, Permutation_middle. }
+  assert (Hsub : forall x, In x (concat (k_breaks c) ++ X') -> In x (concat (k_breaks c) ++ X)).
+  { intros x Hx. eapply Permutation_in. apply Permutation_sym. exact HPP. right; auto. }
+  repeat split; auto.
+  - pose proof (Permutation_NoDup HPP N1) as Hn. inversion Hn; auto.
+  - intros k a b c0 d H. destruct (N3 _ _ _ _ _ H) as [?|Hin]; auto.
+    apply (Permutation_in _ HP) in Hin. destruct Hin as [Hp|Hin]; [left; eapply H1; eauto | auto].
+  - intros k a b c0 d H. destruct (N4 _ _ _ _ _ H) as [?|Hin]; auto.
+    apply (Permutation_in _ HP) in Hin. destruct Hin as [Hp|Hin]; [left; eapply H2; eauto | auto].
+  - intros Hin. apply Hsub in Hin. eapply N6; eauto.
+  - eapply N6; eauto.
+Qed.
 Lemma jinv_patch_jump n X X' fs c pre o a b lo hi post :
   let g := pre ++ (o, [a; b]) :: post in
   let g' := pre ++ (o, [lo; hi]) :: post in
   jinv n X fs c g -> is_jump16 o = true ->
   N.to_nat (u16 lo hi) = length (flat g) - (length (flat pre) + 1) - 2 ->
-  incl X ((length (flat pre) + 1) :: X') ->
+  Permutation X ((length (flat pre) + 1) :: X') ->
   jinv n X' fs c g'.
 Proof.
-  intros g g' [] Ho Hv HX.
+  intros g g' J Ho Hv HX.
+  assert (Hsp0 : Forall2 sp g g').
+  { apply Forall2_app. apply F2sp_refl. constructor; [|apply F2sp_refl]. right. simpl. destruct o; try discriminate; auto. }
+  assert (Hn0 : nth_error g (length pre) = Some (o, [a; b])).
+  { unfold g. rewrite nth_error_app2, Nat.sub_diag by lia. reflexivity. }
+  assert (HC : hcore X' fs c g').
+  { apply hcore_sp with (g := g); auto.
+    - apply hcore_remX with (X := X) (p := length (flat pre) + 1); auto. eapply jinv_hcore; eauto.
+      + intros k a0 b0 c0 d H Hp. exfalso.
+        assert (k = length pre).
+        { apply (pos_inj g). apply Nat.lt_le_incl. eapply nth_error_lt; eauto. unfold g; rewrite app_length; simpl; lia.
+          unfold g at 2. rewrite pos_split. lia. }
+        subst k. rewrite Hn0 in H. inversion H; subst. discriminate.
+      + intros k a0 b0 c0 d H Hp. exfalso.
+        apply (pos_gap g k (length pre) _ 2 H); simpl; try lia. unfold g; rewrite app_length; simpl; lia.
+        unfold g at 1. rewrite pos_split. lia.
+    - intros k a0 b0 c0 d H. apply (nth_error_replace pre (o, [a; b])) in H. destruct H as [[_ H]|[_ H]]; auto.
+      inversion H; subst. discriminate. }
+  hc HC. destruct J.
   assert (Hsp : Forall2 sp g g').
   { apply Forall2_app. apply F2sp_refl. constructor; [|apply F2sp_refl]. right. simpl. destruct o; try discriminate; auto. }
   assert (Hlen : length (flat g') = length (flat g)) by (symmetry; apply F2sp_len; auto).
@@ -398,7 +593,7 @@ Proof.
       apply bnd_end.
     + fold g in H1. destruct (j_jumps0 k o' a' b' H1 H2) as [?|[?|Hin]]; auto.
       * left. eapply bnd_sp; eauto.
-      * apply HX in Hin. destruct Hin as [Hp|Hin]; auto. exfalso. apply Hk.
+      * apply (Permutation_in _ HX) in Hin. destruct Hin as [Hp|Hin]; auto. exfalso. apply Hk.
         apply (pos_inj g). apply Nat.lt_le_incl. exact (nth_error_lt _ _ _ H1). unfold g; rewrite app_length; simpl; lia.
         unfold g at 2. rewrite pos_split. lia.
   - intros k a' b' H1. rewrite (F2sp_pos _ _ Hsp).
@@ -537,7 +732,7 @@ Proof.
   - constructor; auto. simpl. exists (fst G), o, 255%N, 255%N, []. split; auto. split; auto.
     destruct Hs as [[] _]. congruence.
   - cbn [fst]. apply jinv_pushb. rewrite (ci_code _ _ (proj1 Hs)).
-    eapply jinv_weaken; [apply incl_refl| |apply jinv_push_jump; eauto]. simpl. apply incl_refl.
+    eapply jinv_weaken; [reflexivity| |apply jinv_push_jump; eauto]. simpl. apply incl_refl.
 Qed.
 
 Lemma TJ_code_len n X fs : TJ n X fs code_len (fun k => FBound k :: fs) (fun _ => X) n.
@@ -545,7 +740,7 @@ Proof.
   intros s G a s' Hs Hf Hj H. unfold code_len in H. inversion H; subst. exists G.
   split; auto. split. apply le_refl. split.
   - constructor; auto. simpl. apply bnd_boundary. rewrite (ci_code _ _ (proj1 Hs)). apply bnd_end.
-  - eapply jinv_weaken; [apply incl_refl| |eauto]. simpl. apply incl_refl.
+  - eapply jinv_weaken; [reflexivity| |eauto]. simpl. apply incl_refl.
 Qed.
 
 Lemma TJ_emit_loop n X fs ls l : In (FBound ls) fs -> TJ n X fs (emit_loop ls l) (fun _ => fs) (fun _ => X) n.
@@ -698,7 +893,7 @@ Proof.
   - unfold holds. apply Forall_app. split; auto. destruct c; simpl; auto.
   - apply jinv_consts with (c := s_cur s) (more := more); try reflexivity.
     destruct Hmore as [-> | ->]; auto.
-    eapply jinv_weaken; [apply incl_refl| |exact Hj]. destruct c; simpl; apply incl_refl.
+    eapply jinv_weaken; [reflexivity| |exact Hj]. destruct c; simpl; apply incl_refl.
 Qed.
 
 Lemma TJ_identifier_constant n X fs x : TJ n X fs (identifier_constant x) (fun i => FStr i :: fs) (fun _ => X) n.
@@ -794,7 +989,7 @@ Proof.
   destruct (HT _ _ _ _ A1 Hf1 Hj1 H) as (G2 & B1 & B2 & B3 & B4).
   exists G2. split; auto. split. eapply le_trans; [exact A2|exact B2]. split.
   - unfold holds in B3. apply Forall_app in B3. exact (proj2 B3).
-  - eapply jinv_weaken; [apply incl_refl| |exact B4]. rewrite (clean_lof _ Hcl). intros k [].
+  - eapply jinv_weaken; [reflexivity| |exact B4]. rewrite (clean_lof _ Hcl). intros k [].
 Qed.
 
 (* ------------------------------------------------------------------ *)
@@ -822,7 +1017,7 @@ Proof.
   eapply TJ_bind. apply TJ_identifier_constant. intros g.
   intros s G a s' Hs Hf Hj H. inversion H; subst; clear H. exists G. split; auto. split. apply le_refl. split.
   - inversion Hf; subst. constructor; auto. simpl. right; right. auto.
-  - eapply jinv_weaken; [apply incl_refl| |exact Hj]. simpl. apply incl_refl.
+  - eapply jinv_weaken; [reflexivity| |exact Hj]. simpl. apply incl_refl.
 Qed.
 
 Lemma TJ_resolve_variable n X fs x l :
@@ -831,7 +1026,7 @@ Proof.
   intros s G a s' Hs Hf Hj H. unfold resolve_variable in H. unfold cbind at 1 in H. unfold cur at 1 in H.
   destruct (resolve_local_c (s_cur s) x).
   - inversion H; subst; clear H. exists G. split; auto. split. apply le_refl. split. constructor; auto. simpl. auto.
-    eapply jinv_weaken; [apply incl_refl| |exact Hj]. simpl. apply incl_refl.
+    eapply jinv_weaken; [reflexivity| |exact Hj]. simpl. apply incl_refl.
   - discriminate.
   - unfold cbind at 1 in H. unfold cget at 1 in H.
     destruct (resolve_upvalue_in x (s_cur s) (s_outer s)) as [i c' o'| |] eqn:E.
@@ -846,7 +1041,7 @@ Proof.
         eapply holds_le; eauto. left. simpl. apply A1.
       * cbn [s_cur]. destruct A1 as (_ & Hk & Hb & _ & Hl & _).
         apply jinv_same with (c := s_cur s); auto.
-        eapply jinv_weaken; [apply incl_refl| |exact Hj]. simpl. apply incl_refl.
+        eapply jinv_weaken; [reflexivity| |exact Hj]. simpl. apply incl_refl.
     + eapply TJ_resolve_global; eauto.
     + discriminate.
 Qed.
@@ -864,10 +1059,10 @@ Proof.
   destruct (Nat.ltb 0 (k_scope (s_cur s))) eqn:E.
   - inversion H; subst; clear H. exists G. split; auto. split. apply le_refl. split. constructor; auto.
     simpl. left. apply Nat.ltb_lt; auto.
-    eapply jinv_weaken; [apply incl_refl| |exact Hj]. simpl. apply incl_refl.
+    eapply jinv_weaken; [reflexivity| |exact Hj]. simpl. apply incl_refl.
   - destruct (TJ_identifier_constant n X fs x _ _ _ _ Hs Hf Hj H) as (G' & A1 & A2 & A3 & A4).
     exists G'. split; auto. split; auto. split. inversion A3; subst. constructor; auto. simpl. right. auto.
-    eapply jinv_weaken; [apply incl_refl| |exact A4]. simpl. apply incl_refl.
+    eapply jinv_weaken; [reflexivity| |exact A4]. simpl. apply incl_refl.
 Qed.
 
 Lemma TJ_define_variable n X fs g l : In (FDef g) fs -> TJ n X fs (define_variable g l) (fun _ => fs) (fun _ => X) n.
@@ -880,9 +1075,9 @@ Proof.
     assert (HT : TJ n X (FStr g :: fs) (emit_op16 OpDefineGlobal g l) (fun _ => FStr g :: fs) (fun _ => X) n).
     { apply TJ_emit_op16; auto; try discriminate. simpl; auto. }
     destruct (HT s G a s') as (G' & A1 & A2 & A3 & A4); auto. constructor; auto.
-    eapply jinv_weaken; [apply incl_refl| |exact Hj]. simpl. apply incl_refl.
+    eapply jinv_weaken; [reflexivity| |exact Hj]. simpl. apply incl_refl.
     exists G'. split; auto. split; auto. split. inversion A3; auto.
-    eapply jinv_weaken; [apply incl_refl| |exact A4]. simpl. apply incl_refl.
+    eapply jinv_weaken; [reflexivity| |exact A4]. simpl. apply incl_refl.
 Qed.
 
 Lemma TJ_define_variable_str n X fs g l : In (FStr g) fs -> TJ n X fs (define_variable g l) (fun _ => fs) (fun _ => X) n.
@@ -916,9 +1111,9 @@ Proof.
   assert (HT : TJ n X (FBound jt :: fs) (emit_loop jt l) (fun _ => FBound jt :: fs) (fun _ => X) n).
   { apply TJ_emit_loop. simpl; auto. }
   destruct (HT s G a s') as (G' & A1 & A2 & A3 & A4); auto. constructor; auto.
-  eapply jinv_weaken; [apply incl_refl| |exact Hj]. simpl. apply incl_refl.
+  eapply jinv_weaken; [reflexivity| |exact Hj]. simpl. apply incl_refl.
   exists G'. split; auto. split; auto. split. inversion A3; auto.
-  eapply jinv_weaken; [apply incl_refl| |exact A4]. simpl. apply incl_refl.
+  eapply jinv_weaken; [reflexivity| |exact A4]. simpl. apply incl_refl.
 Qed.
 
 (* ------------------------------------------------------------------ *)
@@ -1091,7 +1286,7 @@ Proof.
   assert (Hj4 : jinv n X (FPure (fu_good fu /\ jgood_func (fst fu) /\ Pu (snd fu)) :: fs) (s_cur s4) (fst G)).
   { destruct Hxe as (_ & Hk & Hbk & _ & Hl & _). cbn [s_cur s4].
     apply jinv_same with (c := s_cur s); auto.
-    eapply jinv_weaken; [apply incl_refl| |exact Hj]. simpl. apply incl_refl. }
+    eapply jinv_weaken; [reflexivity| |exact Hj]. simpl. apply incl_refl. }
   destruct (HK fu _ _ _ _ Hs4 Hf4 Hj4 H) as (G5 & A1 & A2 & A3 & A4).
   exists G5. split; auto. split; auto. eapply le_trans; eauto.
 Qed.
@@ -1100,7 +1295,7 @@ Lemma TJ_pure_impl {A} (P Y : Prop) n X fs (m : C A) Q X1 n1 :
   (P -> Y) -> TJ n X (FPure Y :: fs) m Q X1 n1 -> TJ n X (FPure P :: fs) m Q X1 n1.
 Proof.
   intros HXY Hm s G a s' Hs Hf Hj H. apply (Hm s G a s'); auto. inversion Hf; subst. constructor; auto. simpl. auto.
-  eapply jinv_weaken; [apply incl_refl| |exact Hj]. simpl. apply incl_refl.
+  eapply jinv_weaken; [reflexivity| |exact Hj]. simpl. apply incl_refl.
 Qed.
 
 Definition fu_jgood (fu : func * list (N * bool)) : Prop := fu_good fu /\ jgood_func (fst fu).
@@ -1146,7 +1341,7 @@ Proof.
     destruct Hs as [[] _]. unfold hp0. cbn. rewrite app_length. simpl. congruence. }
   assert (Hj' : jinv n X (FHandler hp0 :: fs) (s_cur (pushb s (enc (OpPushExcHandler, [255; 255; 255; 255]%N)) l))
                      (fst G ++ [(OpPushExcHandler, [255; 255; 255; 255]%N)])).
-  { apply jinv_pushb. eapply jinv_weaken; [apply incl_refl| |apply jinv_push; eauto; discriminate]. simpl. apply incl_refl. }
+  { apply jinv_pushb. eapply jinv_weaken; [reflexivity| |apply jinv_push; eauto; discriminate]. simpl. apply incl_refl. }
   destruct (HK hp0 _ _ _ _ B1 Hh Hj' H) as (G5 & A1 & A2 & A3 & A4).
   exists G5. split; auto. split; auto. eapply le_trans; eauto.
 Qed.
